@@ -5,7 +5,7 @@
 template <size_t R0, size_t R1, size_t R2, class A>
 void ob_c06_broadcast_to(const A& a, int tag)
 {
-    auto v = nm::unwrap(view::broadcast_to(a, cshape<R0,R1,R2>{}));
+    auto v = nm::unwrap(view::broadcast_to(raw(a), cshape<R0,R1,R2>{}));
     auto shp = nm::shape(v);
     OBLIGE("C06.broadcast_to.view_shape", (size_t)nm::len(shp) == 3 && (size_t)nm::at(shp, meta::ct_v<0>) == R0 && (size_t)nm::at(shp, meta::ct_v<1>) == R1 && (size_t)nm::at(shp, meta::ct_v<2>) == R2, R0*100+R1*10+R2, tag);
     for_<R0>([&](auto I){ for_<R1>([&](auto J){ for_<R2>([&](auto K){
@@ -15,7 +15,7 @@ void ob_c06_broadcast_to(const A& a, int tag)
 template <size_t R0, size_t R1, class A, class B>
 void ob_c06_broadcast_arrays(const A& a, const B& b, int tag)
 {
-    auto r = nm::unwrap(view::broadcast_arrays(a, b));
+    auto r = nm::unwrap(view::broadcast_arrays(raw(a), raw(b)));
     const auto& va = nm::get<0>(r); const auto& vb = nm::get<1>(r);
     auto sa = nm::shape(va); auto sb = nm::shape(vb);
     OBLIGE("C06.broadcast_arrays.both_have_the_broadcast_shape", (size_t)nm::len(sa) == 2 && (size_t)nm::len(sb) == 2 && (size_t)nm::at(sa, meta::ct_v<0>) == R0 && (size_t)nm::at(sa, meta::ct_v<1>) == R1 && (size_t)nm::at(sb, meta::ct_v<0>) == R0 && (size_t)nm::at(sb, meta::ct_v<1>) == R1, R0, R1, tag);
@@ -24,16 +24,16 @@ void ob_c06_broadcast_arrays(const A& a, const B& b, int tag)
     }); });
 }
 
-void ob_c06_bt_1(const carr<3,1>& a)   { ob_c06_broadcast_to<2,3,2>(a, 1); }
-void ob_c06_bt_2(const carr<2>& a)     { ob_c06_broadcast_to<2,3,2>(a, 2); }
-void ob_c06_bt_3(const carr<2,1,2>& a) { ob_c06_broadcast_to<2,3,2>(a, 3); }
-void ob_c06_bt_4(const carr<1,1,1>& a) { ob_c06_broadcast_to<2,2,2>(a, 4); }
-void ob_c06_ba_1(const carr<2,1>& a, const carr<3>& b)   { ob_c06_broadcast_arrays<2,3>(a, b, 1); }
-void ob_c06_ba_2(const carr<3>& a, const carr<2,3>& b)   { ob_c06_broadcast_arrays<2,3>(a, b, 2); }
-void ob_c06_ba_3(const carr<1,3>& a, const carr<2,1>& b) { ob_c06_broadcast_arrays<2,3>(a, b, 3); }
+void ob_c06_bt_1(const ARR<3,1>& a) { PIN(a, 3,1); ob_c06_broadcast_to<2,3,2>(OP<3,1>(a), 1); }
+void ob_c06_bt_2(const ARR<2>& a) { PIN(a, 2); ob_c06_broadcast_to<2,3,2>(OP<2>(a), 2); }
+void ob_c06_bt_3(const ARR<2,1,2>& a) { PIN(a, 2,1,2); ob_c06_broadcast_to<2,3,2>(OP<2,1,2>(a), 3); }
+void ob_c06_bt_4(const ARR<1,1,1>& a) { PIN(a, 1,1,1); ob_c06_broadcast_to<2,2,2>(OP<1,1,1>(a), 4); }
+void ob_c06_ba_1(const ARR<2,1>& a, const ARR<3>& b) { PIN(a, 2,1); PIN(b, 3); ob_c06_broadcast_arrays<2,3>(OP<2,1>(a), OP<3>(b), 1); }
+void ob_c06_ba_2(const ARR<3>& a, const ARR<2,3>& b) { PIN(a, 3); PIN(b, 2,3); ob_c06_broadcast_arrays<2,3>(OP<3>(a), OP<2,3>(b), 2); }
+void ob_c06_ba_3(const ARR<1,3>& a, const ARR<2,1>& b) { PIN(a, 1,3); PIN(b, 2,1); ob_c06_broadcast_arrays<2,3>(OP<1,3>(a), OP<2,1>(b), 3); }
 
-void ob_c06c_negctl(const carr<3,1>& a)
-{
+void ob_c06c_negctl(const ARR<3,1>& a)
+{ PIN(a, 3,1);
     auto v = nm::unwrap(view::broadcast_to(a, cshape<2,3,2>{}));
     NEGCTL("C06.NEG.stretched_axis_follows_the_index", (long)v(1, 2, 1) == a(1, 0), 0);
 }
